@@ -238,32 +238,61 @@ Definition unary_asgn_rewrite (x op : string) (e : uarg) : option stmt :=
 
 Definition fix_fuel : nat := 200.
 
+(* Analysis.compound: compose first, then look at the exit flag *)
+Fixpoint seq_compound (rec : nat -> stmt -> dgraph -> res cr) (l : list stmt) (index : nat) (acc : rel) (d : dgraph)
+  : res cr :=
+  match l with
+  | [] => ROk {| cr_index := index; cr_rel := acc; cr_exit := false; cr_dg := d |}
+  | s1 :: t =>
+      rbind (rec index s1 d) (fun r =>
+        let acc' := rel_comp acc (cr_rel r) in
+        if cr_exit r then ROk {| cr_index := cr_index r; cr_rel := acc'; cr_exit := true; cr_dg := cr_dg r |}
+        else seq_compound rec t (cr_index r) acc' (cr_dg r))
+  end.
+
+(* Analysis.if_branch: exit before composing *)
+Fixpoint seq_branch (rec : nat -> stmt -> dgraph -> res cr) (l : list stmt) (index : nat) (acc : rel) (d : dgraph)
+  : res cr :=
+  match l with
+  | [] => ROk {| cr_index := index; cr_rel := acc; cr_exit := false; cr_dg := d |}
+  | s1 :: t =>
+      rbind (rec index s1 d) (fun r =>
+        if cr_exit r then ROk {| cr_index := cr_index r; cr_rel := acc; cr_exit := true; cr_dg := cr_dg r |}
+        else seq_branch rec t (cr_index r) (rel_comp acc (cr_rel r)) (cr_dg r))
+  end.
+
+(* the fixpoint + W correction + delta-graph step that closes a while loop *)
+Definition close_while (rb : cr) : res cr :=
+  let r0 := rel_comp rel_empty (cr_rel rb) in
+  match rel_fixpoint fix_fuel r0 with
+  | None => RErr "fuel:fixpoint"
+  | Some fx =>
+      let '(rw, rec) := while_correction fx in
+      rbind (dg_insert_all (cr_dg rb) rec) (fun d1 =>
+      rbind (dg_fusion d1) (fun d2 =>
+        ROk {| cr_index := cr_index rb; cr_rel := rw; cr_exit := dg_is_empty d2; cr_dg := d2 |}))
+  end.
+
+(* the fixpoint + L correction + delta-graph step that closes a counted for loop *)
+Definition close_for (x : string) (rb : cr) : res cr :=
+  let r0 := rel_comp (rel_zero [x]) (cr_rel rb) in
+  match rel_fixpoint fix_fuel r0 with
+  | None => RErr "fuel:fixpoint"
+  | Some fx =>
+      match loop_correction fx x with
+      | None => RErr "ValueError:loop_correction"
+      | Some (rl, rec) =>
+          rbind (dg_insert_all (cr_dg rb) rec) (fun d1 =>
+          rbind (dg_fusion d1) (fun d2 =>
+            ROk {| cr_index := cr_index rb; cr_rel := rl; cr_exit := dg_is_empty d2; cr_dg := d2 |}))
+      end
+  end.
+
 (* compute_relation; fuel only bounds the nesting of the rewriting step of unary_asgn *)
 Fixpoint compute (fuel : nat) (index : nat) (s : stmt) (d : dgraph) {struct fuel} : res cr :=
   match fuel with
   | 0 => RErr "fuel"
   | S fuel' =>
-    let seq_compound :=
-      (* Analysis.compound: compose first, then look at the exit flag *)
-      fix go (l : list stmt) (index : nat) (acc : rel) (d : dgraph) : res cr :=
-        match l with
-        | [] => ROk {| cr_index := index; cr_rel := acc; cr_exit := false; cr_dg := d |}
-        | s1 :: t =>
-            rbind (compute fuel' index s1 d) (fun r =>
-              let acc' := rel_comp acc (cr_rel r) in
-              if cr_exit r then ROk {| cr_index := cr_index r; cr_rel := acc'; cr_exit := true; cr_dg := cr_dg r |}
-              else go t (cr_index r) acc' (cr_dg r))
-        end in
-    let seq_branch :=
-      (* Analysis.if_branch: exit before composing *)
-      fix go (l : list stmt) (index : nat) (acc : rel) (d : dgraph) : res cr :=
-        match l with
-        | [] => ROk {| cr_index := index; cr_rel := acc; cr_exit := false; cr_dg := d |}
-        | s1 :: t =>
-            rbind (compute fuel' index s1 d) (fun r =>
-              if cr_exit r then ROk {| cr_index := cr_index r; cr_rel := acc; cr_exit := true; cr_dg := cr_dg r |}
-              else go t (cr_index r) (rel_comp acc (cr_rel r)) (cr_dg r))
-        end in
     match s with
     | SSkip _ => skip index d
     | SBin x op y z => an_binary index x op y z d
@@ -285,46 +314,25 @@ Fixpoint compute (fuel : nat) (index : nat) (s : stmt) (d : dgraph) {struct fuel
         | _ => skip index d
         end
     | SIf t e =>
-        rbind (seq_branch t index rel_empty d) (fun rt =>
+        rbind (seq_branch (compute fuel') t index rel_empty d) (fun rt =>
           if cr_exit rt then ROk rt
-          else rbind (seq_branch e (cr_index rt) rel_empty (cr_dg rt)) (fun re =>
+          else rbind (seq_branch (compute fuel') e (cr_index rt) rel_empty (cr_dg rt)) (fun re =>
             if cr_exit re then ROk re
             else ROk {| cr_index := cr_index re; cr_rel := rel_sum (cr_rel re) (cr_rel rt);
                         cr_exit := false; cr_dg := cr_dg re |}))
     | SWhile _ body =>
         rbind (compute fuel' index body d) (fun rb =>
           if cr_exit rb then ROk rb       (* returns the inner relation only *)
-          else
-            let r0 := rel_comp rel_empty (cr_rel rb) in
-            match rel_fixpoint fix_fuel r0 with
-            | None => RErr "fuel:fixpoint"
-            | Some fx =>
-                let '(rw, rec) := while_correction fx in
-                rbind (dg_insert_all (cr_dg rb) rec) (fun d1 =>
-                rbind (dg_fusion d1) (fun d2 =>
-                  ROk {| cr_index := cr_index rb; cr_rel := rw; cr_exit := dg_is_empty d2; cr_dg := d2 |}))
-            end)
+          else close_while rb)
     | SFor iters srcs conds nxt body =>
         match loop_compat iters srcs conds nxt body with
         | None => skip index d
         | Some x =>
             rbind (compute fuel' index body d) (fun rb =>
               if cr_exit rb then ROk {| cr_index := cr_index rb; cr_rel := cr_rel rb; cr_exit := true; cr_dg := cr_dg rb |}
-              else
-                let r0 := rel_comp (rel_zero [x]) (cr_rel rb) in
-                match rel_fixpoint fix_fuel r0 with
-                | None => RErr "fuel:fixpoint"
-                | Some fx =>
-                    match loop_correction fx x with
-                    | None => RErr "ValueError:loop_correction"
-                    | Some (rl, rec) =>
-                        rbind (dg_insert_all (cr_dg rb) rec) (fun d1 =>
-                        rbind (dg_fusion d1) (fun d2 =>
-                          ROk {| cr_index := cr_index rb; cr_rel := rl; cr_exit := dg_is_empty d2; cr_dg := d2 |}))
-                    end
-                end)
+              else close_for x rb)
         end
-    | SBlock l => seq_compound l index rel_empty d
+    | SBlock l => seq_compound (compute fuel') l index rel_empty d
     end
   end.
 
